@@ -9,10 +9,10 @@ Batch == JsonDeserialize(IOEnv.TRACE_FILE)
 NCli == Len(Batch.cli)
 VARIABLES tid, verdict
 vars == <<tid, verdict>>
-Pending == [st |-> "pending", stage |-> 0, name |-> "", how |-> "", where |-> <<>>, adm |-> 0, files |-> ""]
+Pending == Verdict("pending", "")
 Init == tid \in 1..(NCli + Len(Batch.pairs)) /\ verdict = Pending
 Judge(t) ==
-  IF t <= NCli THEN [st |-> JudgePair(Batch.cli[t]), stage |-> 0, name |-> "", how |-> "", where |-> <<>>, adm |-> 0, files |-> ""]
+  IF t <= NCli THEN Verdict(JudgePair(Batch.cli[t]), "")
   ELSE LET p == Batch.pairs[t - NCli] IN JudgeStages(Batch.runs[p.one], Batch.runs[p.two], p.motion, p.thr, p.fadm)
 Eval == verdict.st = "pending" /\ verdict' = Judge(tid) /\ UNCHANGED tid
 Spec == Init /\ [][Eval]_vars
